@@ -250,7 +250,7 @@ def Stmt.needs : Stmt → Bool × Bool
   | .two _ a _ => (a.needDb, a.needSchema)
   -- `transforms.identifier` puts the whole dotted name into ONE identifier: the table looks unqualified
   | .tabI _ _ => (true, true)
-  -- write_pandas talks to DuckDB directly: no guard at all
+  -- write_pandas talks to DuckDB directly: no 90105 / 90106 guard at all
   | .writePandas _ _ => (false, false)
 
 /-- statements fakesnow cannot build at all: MERGE with a schema- or database-qualified source makes the decomposition
@@ -330,10 +330,11 @@ def exec (c : Cat) (ss : Session) : Stmt → Res × Cat × Session
     let r := c.applyT op q.1 q.2.1 q.2.2
     (r.1, r.2, ss)
   | .writePandas v r =>
-    -- `INSERT INTO <name> SELECT * FROM df` on the DuckDB connection; DuckDB's exceptions reach the caller untranslated
+    -- `INSERT INTO <name> SELECT * FROM df` on the DuckDB connection (no 9010x guard); since /repo fba55e9 DuckDB's
+    -- Binder / Catalog exceptions are translated to 2043 / 2003 like everywhere else
     let q := duckResolve c ss.path false r
     let a := c.applyT (.insert v) q.1 q.2.1 q.2.2
-    if a.1 = .ok then (.ok, a.2, ss) else (.err .raw, c, ss)
+    (a.1, a.2, ss)
   | .selectCtx => (.ctx (some ss.path.1) (some ss.path.2), c, ss)
 
 namespace Impl
@@ -513,7 +514,7 @@ def Key.name : Key → String
   | .connectNamesMissingContext => "C03/connect-names-missing-context"
   | .mergeQualifiedSource => "C03/merge-qualified-source"
   | .identifierFunctionUnqualified => "C03/identifier-function-treated-as-unqualified"
-  | .writePandasBypassesGuards => "C03/write-pandas-bypasses-guards-and-error-translation"
+  | .writePandasBypassesGuards => "C03/write-pandas-bypasses-guards"
 
 /-- a one-part lookup that DuckDB answers from the current catalog's `main` schema -/
 def fallsBack (c : Cat) (path : Name × Name) : TRef → Bool
@@ -537,10 +538,8 @@ def localRegion (c : Cat) (ss : Session) : Stmt → Option Key
   | .tabI op r =>
     if (ss.guard (true, true)).isSome && (ss.guard (r.needDb, r.needSchema)).isNone then some .identifierFunctionUnqualified
     else if !op.isCreate && fallsBack c ss.path r then some .unqualifiedFallsBackToMain else none
-  | .writePandas v r =>
-    let q := duckResolve c ss.path false r
-    if (ss.guard (r.needDb, r.needSchema)).isSome || (c.applyT (.insert v) q.1 q.2.1 q.2.2).1 != .ok
-    then some .writePandasBypassesGuards
+  | .writePandas _ r =>
+    if (ss.guard (r.needDb, r.needSchema)).isSome then some .writePandasBypassesGuards
     else if fallsBack c ss.path r then some .unqualifiedFallsBackToMain else none
   | .two op a b =>
     if (Stmt.two op a b).rawFails then some .mergeQualifiedSource
